@@ -7,7 +7,9 @@ sub-list between the corresponding character indices; a byte offset is `blen` of
 model computes in **character indices** and converts to bytes (`blen`) exactly where the Rust code
 handles byte offsets (`mat.end()`, `eos`, `position`).  `has_non_break_word` is byte based in the
 Rust (30-byte look-back that may start inside a character, trie lookup on `&[u8]`) and is modelled
-on the UTF-8 bytes.
+on the UTF-8 bytes.  Its `Ordering::Equal` arm exists in two variants (`CkVariant`): `cur`, the code
+as it was (defect D12), and `fix`, the repaired arm; every function from `checkEntries` up to `split`
+takes the variant, and the driver reads it from the token `ck_variant=cur|fix` (default `cur`).
 
 The five regular expressions are transcribed as direct matchers (see the comment on each).
 `fancy_regex`/`regex` semantics used: leftmost-first (backtracking order) matching, greedy
@@ -228,34 +230,67 @@ def charsFromByte : Text → Nat → Option Nat
   | [], _ + 1 => none
   | c :: cs, i + 1 => if i + 1 < width c then none else charsFromByte cs (i + 1 - width c)
 
+/-- which `Ordering::Equal` arm of `has_non_break_word` the model mirrors.
+`cur`: `Ordering::Equal => return input[i..].chars().take(2).count() > 1,` (the code as it was, D12);
+`fix`: `Ordering::Equal => { if input[i..end_byte].chars().take(2).count() > 1 { return true; } }`
+(the repaired code: the matched word, and the loop goes on when it has one character). -/
+inductive CkVariant where
+  | cur : CkVariant
+  | fix : CkVariant
+deriving Repr, DecidableEq
+
+/-- `t[..j].chars().count()`; `none` = `j` is not a character boundary of `t` (or is beyond its end) -/
+def charsToByte : Text → Nat → Option Nat
+  | _, 0 => some 0
+  | [], _ + 1 => none
+  | c :: cs, j + 1 => if j + 1 < width c then none else (charsToByte cs (j + 1 - width c)).map (· + 1)
+
+/-- `t[i..j].chars().count()` for `i ≤ j`; `none` = `i` or `j` is not a character boundary -/
+def charsInSlice : Text → Nat → Nat → Option Nat
+  | t, 0, j => charsToByte t j
+  | [], _ + 1, _ => none
+  | c :: cs, i + 1, j => if i + 1 < width c then none else charsInSlice cs (i + 1 - width c) (j - width c)
+
+/-- `input[i..j].chars().count()`; `none` = the slice panics (`i > j`, or an end off a boundary) -/
+def sliceChars (input : Text) (i j : Nat) : Option Nat :=
+  if j < i then none else charsInSlice input i j
+
 /-- the inner `for entry in lookup(..)`; `none` = fell through -/
-def checkEntries (input : Text) (eosByte i : Nat) : List Nat → Option (Res Bool)
+def checkEntries (v : CkVariant) (input : Text) (eosByte i : Nat) : List Nat → Option (Res Bool)
   | [] => none
   | len :: more =>
     let endByte := i + len
     if endByte > eosByte then some (.ok true)
     else if endByte = eosByte then
-      -- `return input[i..].chars().take(2).count() > 1`  (D12: the rest of the input, not the word)
-      some (match charsFromByte input i with
-            | none => .panic
-            | some r => .ok (decide (min r 2 > 1)))
-    else checkEntries input eosByte i more
+      match v with
+      | .cur =>
+        -- `return input[i..].chars().take(2).count() > 1`  (D12: the rest of the input, not the word)
+        some (match charsFromByte input i with
+              | none => .panic
+              | some r => .ok (decide (min r 2 > 1)))
+      | .fix =>
+        -- `if input[i..end_byte].chars().take(2).count() > 1 { return true; }`, else the next entry
+        match sliceChars input i endByte with
+        | none => some .panic
+        | some r => if min r 2 > 1 then some (.ok true) else checkEntries v input eosByte i more
+    else checkEntries v input eosByte i more
 
 /-- the outer `for i in lookup_start..eos_byte` -/
-def nonBreakLoop (lexs : List (List (List Nat))) (input : Text) (bytes : List Nat) (eosByte : Nat) :
-    List Nat → Res Bool
+def nonBreakLoop (v : CkVariant) (lexs : List (List (List Nat))) (input : Text) (bytes : List Nat)
+    (eosByte : Nat) : List Nat → Res Bool
   | [] => .ok false
   | i :: is =>
-    match checkEntries input eosByte i (lookupLens lexs (bytes.drop i)) with
+    match checkEntries v input eosByte i (lookupLens lexs (bytes.drop i)) with
     | some r => r
-    | none => nonBreakLoop lexs input bytes eosByte is
+    | none => nonBreakLoop v lexs input bytes eosByte is
 
 def LOOKUP_BYTE_LENGTH : Nat := 10 * 3
 
 /-- `has_non_break_word(input, length)` with `self.bos = 0` (the splitter never changes `bos`) -/
-def hasNonBreakWord (lexs : List (List (List Nat))) (input : Text) (eosByte : Nat) : Res Bool :=
+def hasNonBreakWord (v : CkVariant) (lexs : List (List (List Nat))) (input : Text) (eosByte : Nat) :
+    Res Bool :=
   let lookupStart := max LOOKUP_BYTE_LENGTH eosByte - LOOKUP_BYTE_LENGTH
-  nonBreakLoop lexs input (utf8 input) eosByte (List.range' lookupStart (eosByte - lookupStart))
+  nonBreakLoop v lexs input (utf8 input) eosByte (List.range' lookupStart (eosByte - lookupStart))
 
 /-! ## `SentenceDetector::get_eos` -/
 
@@ -273,7 +308,8 @@ inductive Cand where
 deriving Repr, DecidableEq
 
 /-- body of `for mat in SENTENCE_BREAKER.find_iter(&s)`; `checker = none` is `Option::None` -/
-def examine (checker : Option (List (List (List Nat)))) (input s : Text) (eos0 : Nat) : Cand :=
+def examine (v : CkVariant) (checker : Option (List (List (List Nat)))) (input s : Text) (eos0 : Nat) :
+    Cand :=
   if parenLevel (s.take eos0) > 0 then .veto else
   let eos := if eos0 < s.length then eos0 + prohibitedBos (s.drop eos0) else eos0
   if isItemizeHeader s then .veto else
@@ -284,33 +320,34 @@ def examine (checker : Option (List (List (List Nat)))) (input s : Text) (eos0 :
     match checker with
     | none => .accept eos
     | some lexs =>
-      match hasNonBreakWord lexs input (blen (s.take eos)) with
+      match hasNonBreakWord v lexs input (blen (s.take eos)) with
       | .panic => .panic
       | .ok true => .veto
       | .ok false => .accept eos
 
 /-- `find_iter` + loop body.  `k` = characters of `s` before the list, `prev` = the character before
 it, `skip` = remaining characters of the last (vetoed) match, which `find_iter` does not revisit. -/
-def scan (checker : Option (List (List (List Nat)))) (input s : Text) :
+def scan (v : CkVariant) (checker : Option (List (List (List Nat)))) (input s : Text) :
     Nat → Option Nat → Nat → Text → Option Cand
   | _, _, _, [] => none
-  | k, _, skip + 1, c :: rest => scan checker input s (k + 1) (some c) skip rest
+  | k, _, skip + 1, c :: rest => scan v checker input s (k + 1) (some c) skip rest
   | k, prev, 0, c :: rest =>
     match breakerAt prev (c :: rest) with
-    | none => scan checker input s (k + 1) (some c) 0 rest
+    | none => scan v checker input s (k + 1) (some c) 0 rest
     | some n =>
-      match examine checker input s (k + n) with
-      | .veto => scan checker input s (k + 1) (some c) (n - 1) rest
+      match examine v checker input s (k + n) with
+      | .veto => scan v checker input s (k + 1) (some c) (n - 1) rest
       | r => some r
 
 /-- `Ok(-(n as isize))`: for `n = 0` this is `Ok(0)`, which the caller does not see as negative -/
 def negOf (n : Nat) : Eos := if n = 0 then .pos 0 else .neg n
 
-def getEos (limit : Nat) (checker : Option (List (List (List Nat)))) (input : Text) : Res Eos :=
+def getEos (v : CkVariant) (limit : Nat) (checker : Option (List (List (List Nat)))) (input : Text) :
+    Res Eos :=
   if input.isEmpty then .ok (.pos 0) else
   let s := input.take limit
   let inputExceedsLimit := decide (blen s < blen input)
-  match scan checker input s 0 none 0 s with
+  match scan v checker input s 0 none 0 s with
   | some (.accept e) => .ok (.pos e)
   | some .panic => .panic
   | some .veto => .panic   -- unreachable: `scan` never returns a veto
@@ -345,25 +382,26 @@ def SplitRes.cons (x : Sent) : SplitRes → SplitRes
   | r => r
 
 /-- `fuel` calls of `next`; `position` in bytes, `rest = data[position..]` -/
-def splitFuel (limit : Nat) (checker : Option (List (List (List Nat)))) :
+def splitFuel (v : CkVariant) (limit : Nat) (checker : Option (List (List (List Nat)))) :
     Nat → Nat → Text → SplitRes
   | _, _, [] => .ok []                                   -- `position == data.len()` → `None`
   | 0, _, _ :: _ => .fuelOut
   | fuel + 1, position, c :: cs =>
     let rest := c :: cs
-    match getEos limit checker rest with
+    match getEos v limit checker rest with
     | .panic => .panic                                   -- `.unwrap()` / slicing
     | .ok (.neg _) =>                                    -- `rv < 0` → `end = data.len()`
       .ok [⟨position, position + blen rest, rest⟩]
     | .ok (.pos e) =>
       let endB := position + blen (rest.take e)
-      SplitRes.cons ⟨position, endB, rest.take e⟩ (splitFuel limit checker fuel endB (rest.drop e))
+      SplitRes.cons ⟨position, endB, rest.take e⟩ (splitFuel v limit checker fuel endB (rest.drop e))
 
 /-- the whole iteration; for `limit ≥ 1` every step consumes at least one character
 (`Proofs/Sentence.lean`), so `text.length` calls suffice.  (`limit = 0`: `get_eos` returns `-0 = 0`,
 `next` yields an empty sentence without advancing, forever — `C16.limit_zero_counterexample`.) -/
-def split (limit : Nat) (checker : Option (List (List (List Nat)))) (text : Text) : SplitRes :=
-  splitFuel limit checker text.length 0 text
+def split (v : CkVariant) (limit : Nat) (checker : Option (List (List (List Nat)))) (text : Text) :
+    SplitRes :=
+  splitFuel v limit checker text.length 0 text
 
 /-! ## driver entry -/
 
@@ -373,22 +411,29 @@ def showSents (l : List Sent) : String :=
 def parseLexs (s : List Char) : Option (List (List (List Nat))) :=
   Wire.allSome ((Wire.items ';' s).map (fun lx => Wire.allSome ((Wire.items ',' lx).map Wire.hexBytes?)))
 
-/-- `C16 split idx=<n> limit=<n> ck=<0|1> lex=<hex,hex;hex,...> text=<code points>` -/
+/-- the token `ck_variant=cur|fix` of the case line; `cur` when the token is absent.
+The harness writes `fix` when the tree it is built against has the repaired `Ordering::Equal` arm. -/
+def parseVariant (toks : List (List Char)) : Option CkVariant :=
+  match Wire.kv? toks "ck_variant" with
+  | none => some .cur
+  | some w => if w = "cur".toList then some .cur else if w = "fix".toList then some .fix else none
+
+/-- `C16 split idx=<n> limit=<n> ck=<0|1> [ck_variant=cur|fix] lex=<hex,hex;hex,...> text=<code points>` -/
 def handle (toks : List (List Char)) : String :=
   match Wire.kv? toks "limit", Wire.kv? toks "ck", Wire.kv? toks "lex", Wire.kv? toks "text" with
   | some l, some ck, some lx, some t =>
-    match Wire.nat? l, Wire.nat? ck, parseLexs lx, Wire.natList? t with
-    | some limit, some ckn, some lexs, some text =>
+    match Wire.nat? l, Wire.nat? ck, parseLexs lx, Wire.natList? t, parseVariant toks with
+    | some limit, some ckn, some lexs, some text, some v =>
       let checker := if ckn = 0 then none else some lexs
-      let eos := match getEos limit checker text with
+      let eos := match getEos v limit checker text with
         | .panic => "PANIC"
         | .ok r => toString (eosValue text r)
-      let sp := match split limit checker text with
+      let sp := match split v limit checker text with
         | .panic => "PANIC"
         | .fuelOut => "NONTERMINATION"
         | .ok l => showSents l
       "ok eos=" ++ eos ++ " ranges=" ++ sp
-    | _, _, _, _ => "bad-op"
+    | _, _, _, _, _ => "bad-op"
   | _, _, _, _ => "bad-op"
 
 end Sentence
